@@ -18,8 +18,8 @@ parent.children.append(c)  (decorator fires the append       `append`
   scalar `set(c, parent)` carrying the collection's append
   token -> scalar listener removes c from its old parent's
   list and does NOT append again; then list.append)
-parent.children.remove(c)  (remove event first:              `remove`
-  emit_backref_from_collection_remove_event: unless
+parent.children.remove(c)  (remove event, only `if value      `remove`
+  in self`: emit_backref_from_collection_remove_event: unless
   util.has_dupes(collection, c): scalar pop = set(None) only
   if c.parent is this parent; then list.remove -> ValueError)
 pop(i) (list.pop first, then the remove event)              `pop`
@@ -89,11 +89,13 @@ def append (st : St) (p c : Nat) : St :=
   let st1 := appendEvent st p c
   setKids st1 p (st1.kids p ++ [c])
 
-/-- `parent.children.remove(c)`: event, then `list.remove` -/
+/-- `parent.children.remove(c)`: the remove event fires only `if value in self`, then
+    `list.remove` (ValueError for an absent value) -/
 def remove (st : St) (p c : Nat) : St × Option Err :=
-  let st1 := removeEvent st p c (st.kids p)
-  if (st1.kids p).contains c then (setKids st1 p ((st1.kids p).erase c), none)
-  else (st1, some .valueError)
+  if (st.kids p).contains c then
+    let st1 := removeEvent st p c (st.kids p)
+    (setKids st1 p ((st1.kids p).erase c), none)
+  else (st, some .valueError)
 
 def normIdx (n : Nat) (i : Int) : Option Nat :=
   if i < 0 then (if i + n < 0 then none else some (i + n).toNat)
